@@ -63,6 +63,10 @@ CHECKS['C11'] = dict(engine='histmc', category='model_checking', section='3/C11'
    technique='explicit-state breadth-first search over submit/delete/restart histories on the real GripServer job handlers with FSJobStorage, plus bounded-exhaustive enumeration of result types x sizes and of all split points of all well-typed programs for resume',
    text='A1: nine traversal families (vertices, edges, count, selection, render, path, aggregation, unloaded elements, marks) x graph sizes 0,1,3,4,5,9,40,41,45 (serializer worker pool 4, buffers 40) are submitted, awaited and read back: rows and Status.Count must equal the direct run. A2: every split Q1.Q2 of every well-typed order-independent program of length <=3 (4 thorough) over the core alphabet on two fixtures: submit Q1, ResumeJob with Q2 must equal running Q directly. B: every history of depth <=3 (4) over submit (5 queries x 2 graphs), delete and restart; after every step ListJobs, SearchJobs for 5 probe queries, GetJob and ViewJob of every job are compared with a list model (prefix rule, >=2 steps, survival across restart, deletion).',
    note='Job storage is injected into GripServer by the verif-tagged overlay file engines/hooks/server_export_verif.go; asynchronous completion is awaited by polling (the race itself belongs to C17).')
+CHECKS['C14'] = dict(engine='progenum', category='exploration', section='3/C14',
+   technique='bounded-exhaustive enumeration of statement sequences compiled by both compilers (typing agreement) and exhaustive product of has-expressions whose emitted $match document is interpreted under standard MongoDB semantics and compared with the core evaluator',
+   text='Typing: every statement sequence of length <=4 (5 thorough) over 6 starts and 59 step instances, each also with a trailing aggregate, is compiled by mongo.NewCompiler (no database needed) and core.NewCompiler: acceptance, result type and mark types must agree. Filters: for 12 operators x every argument shape of the C08 grid and for every and/or/not expression of nesting <=2 (3) over atoms on which both sides agree, the document produced by the real convertHasExpression is evaluated by a 200-line interpreter of $and/$or/$not/$eq/$ne/$gt/$gte/$lt/$lte/$in on 10 scalar documents and must select exactly what logic.MatchesHasExpression keeps.',
+   note='mongoeval is the trusted statement of standard MongoDB semantics (type brackets, null = missing for equality, $ne/$not match missing fields). convertHasExpression is reached through a verif-tagged overlay file; no MongoDB server is involved.')
 NA_REASON = 'check not built yet in this session (planned in DESIGN.md section 3); nothing is claimed for it'
 
 m = {
